@@ -1,1 +1,109 @@
-From DV Require Import Run_C02.
+(* C02 — Rows received from peers are stored only if their author had the right.
+   Property theorems only: statement, exact, Print Assumptions.  Proofs: proofs/C02P.v
+   (model: model/AuthzRemote.v; oracle and entry points: run/Run_C02.v). *)
+From DV Require Import RightsP Run_C01 C01P Run_C02 C02P.
+
+(* The full statement, for a receiver with room definitions `defs`, data model `dm`, tables `st`
+   and ANY sequence of ingestion calls: the oracle (Run_C02.viol_steps: every row, reference or
+   tombstone that appears is validly signed, belongs to the room, conforms to the data model and
+   its author is granted the needed right at the row's own date by the room history — in the room
+   left as well, all-rows right when another author's row is replaced or removed; nothing else
+   changes; a failed call changes nothing) finds no violation. *)
+Definition C02_full : Prop := forall defs dm ss st,
+  ids_unique st ->
+  viol_steps defs dm st ss (observed (run_steps (build_rooms defs) dm st ss)) = [].
+
+(* The unchanged code violates it: closed witnesses, one per defect kind (the same scenarios are
+   replayed against the real code by the harness as directed cases 0..5):
+   1 reference / reference tombstone whose source row is not in the room, 2 tombstone naming another
+   entity than the row it removes, 3 row replaced by a row of another entity, 4 another author's
+   reference replaced without the all-rows right, 5 row without JSON content for an entity with
+   required fields *)
+Theorem C02_refuted :
+  violations w_K1 (run_C02 w_K1) = [1] /\ violations w_K1b (run_C02 w_K1b) = [1] /\
+  violations w_K2 (run_C02 w_K2) = [2] /\ violations w_K3 (run_C02 w_K3) = [3] /\
+  violations w_K4 (run_C02 w_K4) = [4] /\ violations w_K5 (run_C02 w_K5) = [5].
+Proof. exact witnesses. Qed.
+Print Assumptions C02_refuted.
+
+Theorem C02_refuted_in_known_classes :
+  known_C02 w_K1 = [1] /\ known_C02 w_K2 = [2] /\ known_C02 w_K3 = [3] /\ known_C02 w_K4 = [4] /\ known_C02 w_K5 = [5].
+Proof. exact witness_classes. Qed.
+Print Assumptions C02_refuted_in_known_classes.
+
+(* What does hold, for every room history, every state with unique row ids and every sequence of
+   calls of any length: whatever the oracle finds on the model's behaviour is one of the five
+   delimited kinds — never an unexplained change (kind 0): no row, reference or tombstone appears
+   without a valid signature, the room, the known entity, conforming JSON and the granted right at
+   its own date (both rooms on a move, all-rows right on another author's row); nothing disappears
+   except under such a row / tombstone of the same call; other tables are untouched *)
+Theorem C02_outside_known : forall defs dm ss st v,
+  ids_unique st ->
+  In v (viol_steps defs dm st ss (observed (run_steps (build_rooms defs) dm st ss))) ->
+  v = 1 \/ v = 2 \/ v = 3 \/ v = 4 \/ v = 5.
+Proof. exact model_violations_known. Qed.
+Print Assumptions C02_outside_known.
+
+(* in the shape of the contract: a run in no known class has no violation at all *)
+Theorem C02_outside_known_clean : forall defs dm ss st,
+  ids_unique st ->
+  classes_of (viol_steps defs dm st ss (observed (run_steps (build_rooms defs) dm st ss))) = [] ->
+  viol_steps defs dm st ss (observed (run_steps (build_rooms defs) dm st ss)) = [].
+Proof. exact model_outside_known. Qed.
+Print Assumptions C02_outside_known_clean.
+
+(* per kind of call: which defects each entry point can exhibit *)
+Theorem C02_nodes_outside_known : forall defs dm R st batch v,
+  let r := step_nodes (build_rooms defs) dm R st batch in
+  In v (viol_step defs dm (SNodes R batch) (match snd r with 0 :: _ => true | _ => false end) st (fst r)) ->
+  v = 3 \/ v = 5.
+Proof. exact step_nodes_viol. Qed.
+Print Assumptions C02_nodes_outside_known.
+
+Theorem C02_edges_outside_known : forall defs dm R st batch v,
+  let r := step_edges (build_rooms defs) R st batch in
+  In v (viol_step defs dm (SEdges R batch) (match snd r with 0 :: _ => true | _ => false end) st (fst r)) ->
+  v = 1 \/ v = 4.
+Proof. exact step_edges_viol. Qed.
+Print Assumptions C02_edges_outside_known.
+
+Theorem C02_node_tombstones_outside_known : forall defs dm st batch v,
+  ids_unique st ->
+  let r := step_ndels (build_rooms defs) st batch in
+  In v (viol_step defs dm (SNDels batch) (match snd r with 0 :: _ => true | _ => false end) st (fst r)) ->
+  v = 2.
+Proof. exact step_ndels_viol. Qed.
+Print Assumptions C02_node_tombstones_outside_known.
+
+Theorem C02_edge_tombstones_outside_known : forall defs dm st batch v,
+  let r := step_edels (build_rooms defs) st batch in
+  In v (viol_step defs dm (SEDels batch) (match snd r with 0 :: _ => true | _ => false end) st (fst r)) ->
+  v = 1.
+Proof. exact step_edels_viol. Qed.
+Print Assumptions C02_edge_tombstones_outside_known.
+
+(* a call that fails as a whole (a signature does not verify, unknown room) leaves no trace *)
+Theorem C02_failed_call_changes_nothing : forall rooms dm st s,
+  status_ok (snd (do_step rooms dm st s)) = false -> fst (do_step rooms dm st s) = st.
+Proof. exact failed_call_changes_nothing. Qed.
+Print Assumptions C02_failed_call_changes_nothing.
+
+(* what else is in the batch or in the tables makes no difference to the verdict on a row *)
+Theorem C02_verdict_local : forall rooms dm R st st' x,
+  lookup_node st (n_id x) = lookup_node st' (n_id x) ->
+  requested st x = requested st' x /\ accept_node rooms dm R st x = accept_node rooms dm R st' x.
+Proof. exact node_verdict_local. Qed.
+Print Assumptions C02_verdict_local.
+
+(* hypotheses are satisfiable and the property is not vacuous: an honest exchange is stored
+   entirely, its two refused rows are reported, the oracle is silent *)
+Example C02_nonvacuous :
+  spec_C02 w_ok (run_C02 w_ok) = true /\ known_C02 w_ok = [] /\
+  run_C02 w_ok = [2; 1; 2; 1; 3; 0; 0;
+                  0; 2; 1; 2; 0; 0; 1; 4;
+                  0; 1; 1; 0; 1; 5; 1; 4;
+                  0; 0; 2; 6; 7; 0; 1; 5; 1; 4;
+                  0; 0; 2; 6; 7; 1; 8; 1; 5; 1; 4;
+                  0; 2; 102; 103; 2; 6; 7; 1; 8; 1; 5; 1; 4].
+Proof. exact honest_exchange. Qed.
+Print Assumptions C02_nonvacuous.
